@@ -270,10 +270,14 @@ pub fn parsegen(prop: &str, seed: u64, runs: usize) -> Vec<J> {
             }
         }
         "C19" => {
-            for _ in 0..runs {
+            for i in 0..runs {
                 let s: u64 = top.gen();
                 let (header, prog) = valid_program(s);
-                let lay = Layout::random(s);
+                let mut lay = Layout::random(s);
+                if i % 25 == 24 {
+                    // line numbers past 255: hundreds of blank and comment lines
+                    lay = Layout { blank_p: 0.9, comment_line_p: 0.85, pre_blank: 20 + (s % 50) as usize, ..lay };
+                }
                 let printed = print_test(&header, &prog, &lay);
                 let mut rl = vec![];
                 row_lines_of(&prog, &printed, &mut rl);
